@@ -151,4 +151,4 @@ def body(case):
 
 
 def tests(tier):
-    return [TestSpec("schema-perms", lambda f: G.from_gen(gen_case, 2048), body, {"quick": 1500, "thorough": 120000})]
+    return [TestSpec("schema-perms", gen_case, body, {"quick": 1500, "thorough": 120000}, tape=2048)]
